@@ -1,10 +1,12 @@
 #!/bin/bash
 # usage: tools/try_seed.sh <patch.diff> <Cnn> [quick|thorough]
-# applies a seeded change to /repo's working tree, runs the check, and reverts straight afterwards
+# applies a seeded change to /repo's working tree, runs the check, and reverts straight afterwards. Evidence and replays of
+# such runs go to the git-ignored /verif/soak/try so that the committed evidence (unchanged tree) is not overwritten.
 patch="$1"; prop="$2"; tier="${3:-quick}"
 if ! git -C /repo diff --quiet; then echo "/repo working tree is dirty" >&2; exit 2; fi
 git -C /repo apply "$patch" || { echo "patch does not apply" >&2; exit 2; }
-cd /verif && ./check "$prop" "$tier"
+mkdir -p /verif/soak/try/evidence /verif/soak/try/replays; cp /verif/known_findings.json /verif/soak/try/
+cd /verif && VERIF_ROOT=/verif/soak/try ./check "$prop" "$tier"
 rc=$?
 git -C /repo checkout -- .
 echo "exit=$rc"
